@@ -9,6 +9,9 @@ if [ "$cmd" = verify ]; then
   wt=$1; id=$2; prop=$3
   cd "$wt" || exit 2
   # make sure the source change is applied (patch.diff) and the demo exists
+  # (the agent leaves its change applied; take it out — including files it added — before re-applying the patch)
+  git reset -q 2>/dev/null
+  git apply -R patch.diff 2>/dev/null
   git checkout -q -- . 2>/dev/null
   git apply patch.diff || { echo "patch does not apply"; exit 2; }
   mv tests/seeded_demo.rs /tmp/seeded_demo.$$.rs
@@ -52,6 +55,7 @@ elif [ "$cmd" = harmless ]; then
         *) bad=1;;
       esac
     done
+    git -C /repo apply -R "$f" 2>/dev/null
     git -C /repo checkout -- .
   done
   echo "harmless corpus: $([ $bad -eq 0 ] && echo all OK || echo ALARM RAISED)"
@@ -64,6 +68,8 @@ elif [ "$cmd" = run ]; then
     echo "== ./check $p with seeded/$id"
     ./check $p 2>&1 | cut -c1-260 | tail -12
   done
+  # undo (a reverse apply also removes files the change added)
+  git -C /repo apply -R /verif/seeded/$id/patch.diff 2>/dev/null
   git -C /repo checkout -- .
   git -C /repo status --short | head -3
 fi
